@@ -391,7 +391,7 @@ pub const SEGMENTS: &[&str] = &["a", "b", "src", "foo.py", "x.tar.gz", "d", "bar
 pub fn relpath() -> BoxedStrategy<String> {
     let seg = prop_oneof![
         12 => (0..SEGMENTS.len()).prop_map(|i| SEGMENTS[i].to_string()),
-        1 => prop_oneof![Just("with space".to_string()), Just("ünï".to_string()), Just(".hidden".to_string()), Just("中".to_string())],
+        1 => prop_oneof![Just("with space".to_string()), Just("ünï".to_string()), Just(".hidden".to_string()), Just("中".to_string()), Just("tab\there".to_string()), Just("line\nbreak".to_string()), Just("q\"uote".to_string()), Just("back\\slash".to_string()), Just("é \"x\"".to_string())],
         // names starting at the edges of the UTF-8 / UTF-16 encoding ranges (1|2, 2|3, surrogate gap, 3|4 byte, last scalar)
         1 => prop_oneof![Just("\u{7f}e".to_string()), Just("\u{80}e".to_string()), Just("\u{7ff}e".to_string()), Just("\u{800}e".to_string()), Just("\u{d7ff}e".to_string()),
             Just("\u{e000}e".to_string()), Just("\u{fffe}e".to_string()), Just("\u{ffff}e".to_string()), Just("\u{10000}e".to_string()), Just("😀.bin".to_string()), Just("\u{10ffff}".to_string())],
